@@ -105,6 +105,23 @@ func recvName(fd *ast.FuncDecl) string {
 	}
 }
 
+// lockClass names a lock by the type that owns it and the field path, so that
+// the same lock gets the same name in every method (receiver names vary).
+func lockClass(pkg string, fd *ast.FuncDecl, expr string) string {
+	expr = strings.Join(strings.Fields(expr), "")
+	if fd.Recv != nil && len(fd.Recv.List) > 0 && len(fd.Recv.List[0].Names) > 0 {
+		r := fd.Recv.List[0].Names[0].Name
+		t := strings.TrimSuffix(recvName(fd), ".")
+		if expr == r {
+			return pkg + "." + t + "(embedded)"
+		}
+		if strings.HasPrefix(expr, r+".") {
+			return pkg + "." + t + "." + strings.TrimPrefix(expr, r+".")
+		}
+	}
+	return pkg + ":" + fd.Name.Name + ":" + expr
+}
+
 func instrumentFile(path string) ([]byte, []string, error) {
 	src, err := os.ReadFile(path)
 	if err != nil {
@@ -140,13 +157,25 @@ func instrumentFile(path string) ([]byte, []string, error) {
 			switch x := n.(type) {
 			case *ast.ExprStmt:
 				// a point before every statement that takes a lock: the place
-				// between two critical sections where the scheduler can preempt
+				// between two critical sections where the scheduler can preempt;
+				// and the lock-order monitor's acquire / release reports
 				if call, ok := x.X.(*ast.CallExpr); ok {
-					if sel, ok := call.Fun.(*ast.SelectorExpr); ok && (sel.Sel.Name == "Lock" || sel.Sel.Name == "RLock") && len(call.Args) == 0 {
-						nLock++
-						inserts = append(inserts, ins{off(x.Pos()), fmt.Sprintf("verifrt.P(%q); ", fmt.Sprintf("%s#lock%d", base, nLock))})
-						sites = append(sites, fmt.Sprintf("%s#lock%d", base, nLock))
+					if sel, ok := call.Fun.(*ast.SelectorExpr); ok && len(call.Args) == 0 {
+						switch sel.Sel.Name {
+						case "Lock", "RLock":
+							nLock++
+							site := fmt.Sprintf("%s#lock%d", base, nLock)
+							inserts = append(inserts, ins{off(x.Pos()), fmt.Sprintf("verifrt.P(%q); verifrt.Acq(%q, %q); ", site, lockClass(pkg, fd, string(src[off(sel.X.Pos()):off(sel.X.End())])), site)})
+							sites = append(sites, site)
+						case "Unlock", "RUnlock":
+							inserts = append(inserts, ins{off(x.Pos()), fmt.Sprintf("verifrt.Rel(%q); ", lockClass(pkg, fd, string(src[off(sel.X.Pos()):off(sel.X.End())])))})
+						}
 					}
+				}
+			case *ast.DeferStmt:
+				if sel, ok := x.Call.Fun.(*ast.SelectorExpr); ok && len(x.Call.Args) == 0 && (sel.Sel.Name == "Unlock" || sel.Sel.Name == "RUnlock") {
+					// registered first, so it runs right after the deferred unlock
+					inserts = append(inserts, ins{off(x.Pos()), fmt.Sprintf("defer verifrt.Rel(%q); ", lockClass(pkg, fd, string(src[off(sel.X.Pos()):off(sel.X.End())])))})
 				}
 			case *ast.ForStmt:
 				nFor++
